@@ -378,6 +378,11 @@ func runSchedTest(t *testing.T, sp schedSpec) {
 			probeReads = sp.growthOnly
 			if len(sc.Actions) > 0 {
 				sr := w.runSchedule(cmds, sc.Actions)
+				if sr.uncontrolled {
+					w.Close()
+					t.Logf("repetition %d: a process believed stopped was running; execution not judged", rep)
+					continue
+				}
 				cmds, growth, mutex, sameLog = sr.cmds, sr.growth, sr.mutex, sr.sameLog
 			} else {
 				cmds = w.runFree(cmds)
@@ -636,6 +641,13 @@ func runSchedTest(t *testing.T, sp schedSpec) {
 				}
 			}
 			sr := w.runSchedule(cmds, actions)
+			if sr.uncontrolled {
+				// strace's per-thread stop lines made a running process look parked: which
+				// process changed the log between two reads is then unknown
+				stats.Label("schedule.not_controlled_execution_not_judged")
+				stats.Eval()
+				return
+			}
 			cmds = sr.cmds
 			growth, mutex, sameLog = sr.growth, sr.mutex, sr.sameLog
 			if sr.lockOverlap {
